@@ -43,8 +43,6 @@ def check_notation(inp):
                                '%s notation of %r denotes another function' % (nm, text))
         if not (r1[1] == r2[1]) or not (r2[1] == r1[1]):
             return Failure('notation', inp, 'equal OBDDs', 'lambda form != expression form', text)
-        if r1[1].root is not r2[1].root:
-            return Failure('notation', inp, 'identical root', 'different root objects', text)
         built.append((text, r1[1]))
     for text, o in built[1:]:
         if not (o == built[0][1]):
@@ -266,7 +264,7 @@ def run(ctx):
                 'OBDD(expr, args) and OBDD("lambda args: expr") for every order of the argument '
                 'list.  Oracles: truth table computed by the harness (and by Python eval for the '
                 'word style) vs a walk of the diagram on every assignment; lambda == expression '
-                '(== and identical root); synonyms equal; OBDD(str(o.root), o.ordering) == o and '
+                '(==, both argument orders); synonyms equal; OBDD(str(o.root), o.ordering) == o and '
                 'OBDD(str(o)) == o, also after the OBDDs of every subexpression and cofactor have been printed as roots and '
                 'are kept alive (printing must not depend on history); missing variable -> RuntimeError; generated non-Boolean '
                 'programs (arithmetic, comparisons, unary +/-, calls, attributes, subscripts, '
